@@ -188,6 +188,15 @@ def check_grain(case):
     m._z = z
     # pure function: constrained growth
     g = m.grainGrowth(m.pbm.PSD)
+    # the documented law dR/dt = alpha M gbe (1/Rcr - 1/R) conserves volume exactly when sum n R^2 dR/dt = 0, i.e. Rcr = M2/M1
+    n0 = np.asarray(m.pbm.PSD, dtype=float)
+    Rc = np.asarray(m.pbm.PSDsize, dtype=float)
+    M1, M2 = float(np.sum(n0 * Rc)), float(np.sum(n0 * Rc ** 2))
+    if M1 > 0 and M2 > 0:
+        want = m.alpha * m.M * m.gbe * (M1 / M2 - 1.0 / np.asarray(m.pbm.PSDbounds, dtype=float))
+        if np.shape(g) != np.shape(want) or not np.allclose(g, want, rtol=1e-10, atol=1e-12 * float(np.max(np.abs(want)))):
+            i = int(np.argmax(np.abs(np.asarray(g) - want))) if np.shape(g) == np.shape(want) else -1
+            out.fail("growth_law_not_volume_conserving", "boundary velocity %r at R=%r; the documented law with the volume-conserving critical radius M2/M1 = %r gives %r" % (float(np.asarray(g)[i]), float(m.pbm.PSDbounds[i]), M2 / M1, float(want[i])))
     cg = m.constrainedGrowth(g.copy(), z)
     if np.any(np.abs(cg) > np.abs(g) * (1 + 1e-12)) or np.any(cg * g < 0):
         out.fail("drag_reverses_or_accelerates", "Zener drag z=%r changed the sign or increased the magnitude of a boundary velocity" % z)
@@ -203,7 +212,16 @@ def check_grain(case):
         def updateCoupledModel(self, gm):
             hist.append((gm.time[-1], gm.avgR[-1], gm.pbm.ThirdMoment(), gm.pbm.bins, gm.pbm.PSD.copy(), gm.pbm.PSDbounds.copy()))
     m.addCouplingModel(Obs())
+    # what the documented renormalisation of each step starts from (number of grains, total volume), read at the public Normalize()
+    raw = []
+    _normalize = m.Normalize
+
+    def _normalize_tap():
+        raw.append((float(m.pbm.ZeroMoment()), float(m.pbm.ThirdMoment())))
+        _normalize()
+    m.Normalize = _normalize_tap
     psd0, b0 = m.pbm.PSD.copy(), m.pbm.PSDbounds.copy()
+    N_prev = float(m.pbm.ZeroMoment())
     v0 = float(m.pbm.ThirdMoment())          # total grain volume the run starts from
     so = sys.stdout
     sys.stdout = io.StringIO()
@@ -213,6 +231,8 @@ def check_grain(case):
     finally:
         sys.stdout = so
     prevR, prevbins = m.avgR[0], len(psd0)
+    if len(raw) != len(hist):
+        raise RuntimeError("harness: %d renormalisations observed for %d recorded steps" % (len(raw), len(hist)))
     remesh = 0
     for k, (t, R, v3, bins, psd, bnds) in enumerate(hist):
         if not math.isclose(v3, 1.0, rel_tol=1e-9) or not math.isclose(v3, v0, rel_tol=1e-9):
@@ -224,9 +244,21 @@ def check_grain(case):
         changed = bins != prevbins or (k > 0 and (len(bnds) != len(hist[k - 1][5]) or bnds[-1] != hist[k - 1][5][-1])) or (k == 0 and (len(bnds) != len(b0) or bnds[-1] != b0[-1]))
         if changed:
             remesh += 1       # interpolation onto a new grid does not preserve the number of grains (documented): counted, not judged
-        if z == 0 and not changed and R < prevR * (1 - 1e-4):
-            out.fail("mean_grain_size_decreases", "step %d without pinning: mean grain size %r -> %r" % (k, prevR, R))
-            break
+        # The recorded mean size is cbrt(volume / number) with the volume renormalised to 1 every step ("numerical errors will lead
+        # to small changes in volume"): the transport step itself may only remove grains, and the mean may fall by no more than the
+        # renormalisation of that step explains (measured: volume error 3.4e-4 in the first step of an under-resolved peak).
+        Nraw, Vraw = raw[k] if k < len(raw) else (None, None)
+        if z == 0 and not changed and Nraw is not None:
+            if Nraw > N_prev * (1 + 1e-9):
+                out.fail("mean_grain_size_decreases", "step %d without pinning: the number of grains rose from %r to %r before renormalisation (volume %r)" % (k, N_prev, Nraw, Vraw), sub="number")
+                break
+            floor = prevR * np.cbrt(min(1.0, Vraw)) * (1 - 1e-9)
+            if R < floor:
+                out.fail("mean_grain_size_decreases", "step %d without pinning: mean grain size %r -> %r (volume before renormalisation %r explains a fall to %r only)" % (k, prevR, R, Vraw, floor), sub="mean")
+                break
+            if Vraw < 1 - 1e-4:
+                out.label("volume_renormalised_by_more_than_1e-4")
+        N_prev = float(np.sum(psd))
         prevR, prevbins = R, bins
     if frozen and hist and remesh == 0:
         ref0 = np.where(psd0 < 1, 0.0, psd0)       # classes below one grain are removed by the documented update
@@ -357,7 +389,7 @@ def clauses():
         Clause("mixed_limits", _strength_case, check_mixed, quick=2500, thorough=100000,
                rule="same parameter generator; the mixed-dislocation formulas at 90 and 0 degrees against the edge and screw formulas (rtol 5e-3, simple J)"),
         Clause("graingrowth", _grain_case, check_grain, quick=250, thorough=8000, shrink=False,
-               rule="generator: grid, log-normal or bimodal grain size distribution, boundary energy/mobility, correction factor alpha in {0.5, 1, 2, 3}, Zener drag {0, 1e2..1e9}, 5-120 steps split over 1-3 solve calls, both iterators, distribution loaded from a function or from data, optionally after an earlier run and reset(); oracle: third moment after every step equals the one the run started from (1), mean size non-decreasing without drag, drag never reverses/accelerates a boundary and freezes the structure when it exceeds every driving pressure; non-trivial: >= 5 steps"),
+               rule="generator: grid, log-normal or bimodal grain size distribution, boundary energy/mobility, correction factor alpha in {0.5, 1, 2, 3}, Zener drag {0, 1e2..1e9}, 5-120 steps split over 1-3 solve calls, both iterators, distribution loaded from a function or from data, optionally after an earlier run and reset(); oracle: third moment after every step equals the one the run started from (1), without drag the number of grains before the per-step renormalisation never rises and the recorded mean size never falls below what that renormalisation explains (prev x cbrt(min(1, raw volume))), boundary velocities equal the documented law at the volume-conserving critical radius M2/M1, drag never reverses/accelerates a boundary and freezes the structure when it exceeds every driving pressure; non-trivial: >= 5 steps"),
         Clause("coupled", _coupled_case, check_coupled, quick=60, thorough=1500, shrink=False,
                rule="generator: toy binary precipitation scenario (1-3 solve calls) with a StrengthModel and a GrainGrowthModel attached from the start; after every host step: strength histories have exactly one entry per host row, grain-growth clock equals host clock (1e-9 rel); non-trivial: >= 30 host steps"),
     ]
